@@ -269,8 +269,9 @@ AUDIT = {
             'pairs (off-site, same-strand mates) through every API and the command line with yield_invalid as bamtagmultiome configures it, '
             'one-base deletions and soft clips, write_pysam with a consensus_read_callback, a soft-masked reference with an extra MD clause; '
             'placement on the contig (molecules covering coordinate 0 / the last base, all classes, APIs and the command line); a second '
-            'alternative base with all insertion orders and a three-base oracle (dominating -> that base, identical evidence -> N).',
-            'CHIC molecules with assignment radius >0 are not generated; "no record skips more than max_N_span" is taken from the parameter name; '
+            'alternative base with all insertion orders and a three-base oracle (dominating -> that base, identical evidence -> N); '
+            'no-call letters and seven-fragment words (one call against six no-calls).',
+            'CHIC molecules with assignment radius >0 are not generated; an N in a source read is no observation; "no record skips more than max_N_span" is taken from the parameter name; '
             'the strand flag and DS of strand-less / site-less molecules and TR with an unmapped R2 are not checked.'),
     'C17': ('Audit extension: blacklist=None, duplicated intervals, four-interval merges, every fragment size 0..R+1 at R=8; bp_chunked on every '
             'composition x bin/gap labelling x tuple arity 3/5/6 x one or two contigs; blacklisted_binning_contigs with BED files as every word '
